@@ -124,8 +124,25 @@ def run_case(c):
             u, v = Unit(actual(c['u'])), Unit(actual(c['v']))
             q = u.qty_cls(mk_amount([f.numerator, f.denominator], c.get('rep', 'dec')), u)
             try:
-                ev['res'] = proj(q.convert(v))
+                if c.get('how') == 'str':
+                    # the same conversion spelt Quantity("<amount> <symbol>", other unit)
+                    from quantity import Quantity
+                    text = '%s %s' % (f.numerator if f.denominator == 1 else '%d/%d' % (f.numerator, f.denominator), u.symbol)
+                    ev['res'] = proj(Quantity(text, v))
+                else:
+                    ev['res'] = proj(q.convert(v))
             except Exception as exc:
+                ev['res'] = proj(exc)
+        elif op == 'conv0':
+            # a zero amount converts like any other: zero of the target unit
+            u, v = Unit(actual(c['u'])), Unit(actual(c['v']))
+            q = u.qty_cls(mk_amount([0, 1], c.get('rep', 'dec')), u)
+            try:
+                r = q.convert(v)
+                ev['zero'] = bool(r.amount == 0)
+                ev['res'] = dict(proj(1 * r.unit), t=type(r).__name__)
+            except Exception as exc:
+                ev['zero'] = False
                 ev['res'] = proj(exc)
         elif op == 'prefix':
             from quantity import si_prefixes
